@@ -661,6 +661,9 @@ def differential(E, con, fi, max_paths=64):
                 bound = symbolic_params(ctx, con, fi)
                 if con.setup is not None:
                     con.setup(ctx, I, bound)
+                # displays (python-level lists / dicts / sets) are mutated IN PLACE by the symbolic run: remember their entry content,
+                # the concrete run must start from it
+                entry_displays = [(o, (dict(o.items) if isinstance(o, VDict) else list(o.items))) for o in list(E.interned.values()) if isinstance(o, (VList, VDict, VSet))]
                 old_heap = ctx.snapshot()
                 pre = Spec(ctx, old_heap, old_heap)
                 _attach_trace(pre, ctx, ctx.trlen)
@@ -689,12 +692,18 @@ def differential(E, con, fi, max_paths=64):
                 heap0 = dict(old_heap) if con.setup is not None else dict(ctx.heap0)   # a sidecar-constructed entry state is the entry state
                 for k in ctx.heap:
                     heap0.setdefault(k, ctx.heap0.get(k))
+                exit_displays = [(o, o.items) for o, _ in entry_displays]
+                for o, items0 in entry_displays:
+                    o.items = items0
                 try:
                     out = R.run_real(E, con, fi, bound, m, heap0, ctx)
                 except R.NotConcretisable:
                     stats["not_concretisable"] += 1
                     pending.extend(ctx.alternatives)
                     continue
+                finally:
+                    for o, items1 in exit_displays:
+                        o.items = items1
                 conc = out["conc"]
                 if conc.inexact:
                     stats["inexact"] += 1
@@ -715,7 +724,7 @@ def differential(E, con, fi, max_paths=64):
     return stats
 
 
-def _num_close(a, b, exact):
+def _num_close(a, b, exact, _depth=0):
     import math
 
     if isinstance(a, bool) or isinstance(b, bool):
@@ -730,7 +739,24 @@ def _num_close(a, b, exact):
         if exact or math.isinf(a) or math.isinf(b):
             return False
         return abs(a - b) <= 1e-9 * max(1.0, abs(a), abs(b))
-    return a is b or a == b
+    if a is b:
+        return True
+    try:
+        if a == b:
+            return True
+    except Exception:  # noqa
+        return False
+    if _depth < 4 and type(a) is type(b):
+        # containers / objects created during the call: same structure (an object the function built has no identity to compare)
+        if isinstance(a, (tuple, list)):
+            return len(a) == len(b) and all(_num_close(x, y, exact, _depth + 1) for x, y in zip(a, b))
+        if isinstance(a, dict):
+            return len(a) == len(b) and all(_num_close(ka, kb, exact, _depth + 1) and _num_close(va, vb, exact, _depth + 1) for (ka, va), (kb, vb) in zip(a.items(), b.items()))
+        da, db = getattr(a, "__dict__", None), getattr(b, "__dict__", None)
+        if isinstance(da, dict) and isinstance(db, dict) and type(a).__module__.startswith("cobald."):
+            shared = [k for k in da if k in db]
+            return bool(shared) and all(_num_close(da[k], db[k], exact, _depth + 1) for k in shared)
+    return False
 
 
 def _compare(E, ctx, I, m, conc, out, kind, value, tr_old, con):
